@@ -40,7 +40,7 @@ func zeroOf(a jsonapi.Attr) any { return jsonapi.GetZeroValue(a.Type, a.Nullable
 func suiteResource(r *Rng, n int, thorough bool, o *Out) {
 	for c := 0; c < n; c++ {
 		typ := genTyp(r, genTypeOpts{name: "t", maxAttrs: 5, maxRels: 3})
-		soft := newSoft(typ)
+		soft := newSoftVia(r, typ, o)
 		wr := newWrapped(typ)
 		expect := map[string]string{}
 		for k, a := range typ.Attrs {
@@ -131,6 +131,146 @@ func suiteResource(r *Rng, n int, thorough bool, o *Out) {
 				pv = "FAIL:Set panicked"
 			}
 			o.emit(op, obs(), pv)
+		}
+	}
+	// a soft resource whose type is edited while it holds values (AddAttr, AddRel,
+	// RemoveField, SetType between Sets): every read agrees with a plain map from the
+	// current type's fields to the value last set since the field (re)appeared, else zero
+	for c := 0; c < n/3+1; c++ {
+		typ := genTyp(r, genTypeOpts{name: "t", maxAttrs: 4, maxRels: 2})
+		soft := newSoftVia(r, typ, o)
+		cur := typ.Copy() // the type the resource should now have
+		expect := map[string]string{}
+		zero := func(t jsonapi.Type, k string) string {
+			if a, ok := t.Attrs[k]; ok {
+				return canonSx(zeroOf(a))
+			}
+			if t.Rels[k].ToOne {
+				return sxVal("")
+			}
+			return sxVal([]string{})
+		}
+		for _, k := range cur.Fields() {
+			expect[k] = zero(cur, k)
+		}
+		verdict := func() string {
+			st := soft.GetType()
+			if st.Name != cur.Name {
+				return "FAIL:type name is " + st.Name
+			}
+			if fmt.Sprint(st.Fields()) != fmt.Sprint(cur.Fields()) {
+				return fmt.Sprintf("FAIL:fields are %v, expected %v", st.Fields(), cur.Fields())
+			}
+			for _, k := range cur.Fields() {
+				var g string
+				if p, _ := guard(func() { g = canonSx(soft.Get(k)) }); p {
+					return "FAIL:Get panicked on " + k
+				}
+				if g != expect[k] {
+					return fmt.Sprintf("FAIL:field %s reads %s, expected %s", k, g, expect[k])
+				}
+			}
+			return "ok"
+		}
+		o.emit(lst("res", "new", sxType(typ)), sxResView(soft)+" "+sxResView(newWrapped(typ)), verdict())
+		for h := 2 + r.IntN(8); h > 0; h-- {
+			var op string
+			fields := cur.Fields()
+			panicked := false
+			switch k := r.IntN(10); {
+			case k < 4 && len(fields) > 0: // Set
+				f := fields[r.IntN(len(fields))]
+				var v any
+				if a, ok := cur.Attrs[f]; ok {
+					v = genVal(r, a.Type, a.Nullable)
+				} else if cur.Rels[f].ToOne {
+					v = idPool[r.IntN(len(idPool))]
+				} else {
+					v = []string{idPool[r.IntN(len(idPool))]}
+				}
+				expect[f] = canonSx(v)
+				op = lst("res", "soft", "set", hx(f), sxVal(v))
+				panicked, _ = guard(func() { soft.Set(f, cloneVal(v)) })
+				o.stat("softedit.set")
+			case k < 6: // AddAttr: a new name, or one already taken (then nothing happens)
+				a := jsonapi.Attr{Name: fieldNames[r.IntN(len(fieldNames))], Type: 1 + r.IntN(14), Nullable: r.bool()}
+				if _, taken := expect[a.Name]; !taken {
+					cur.Attrs[a.Name] = a
+					expect[a.Name] = canonSx(zeroOf(a))
+				}
+				op = lst("res", "soft", "addattr", sxAttr(a))
+				panicked, _ = guard(func() { soft.AddAttr(a) })
+				o.stat("softedit.addattr")
+			case k < 7:
+				rel := jsonapi.Rel{FromType: "t", FromName: fieldNames[r.IntN(len(fieldNames))], ToOne: r.bool(), ToType: "t"}
+				if _, taken := expect[rel.FromName]; !taken {
+					cur.Rels[rel.FromName] = rel
+					expect[rel.FromName] = zero(cur, rel.FromName)
+				}
+				op = lst("res", "soft", "addrel", sxRel(rel))
+				panicked, _ = guard(func() { soft.AddRel(rel) })
+				o.stat("softedit.addrel")
+			case k < 8 && len(fields) > 0: // RemoveField (sometimes of a name that is no field)
+				f := fields[r.IntN(len(fields))]
+				if r.chance(1, 5) {
+					f = "nosuchfield"
+				}
+				delete(cur.Attrs, f)
+				delete(cur.Rels, f)
+				delete(expect, f)
+				op = lst("res", "soft", "removefield", hx(f))
+				panicked, _ = guard(func() { soft.RemoveField(f) })
+				o.stat("softedit.removefield")
+			default: // SetType: some fields kept (same definition), some renamed, some dropped, some new
+				nt := jsonapi.Type{Name: cur.Name, Attrs: map[string]jsonapi.Attr{}, Rels: map[string]jsonapi.Rel{}}
+				if r.chance(1, 4) {
+					nt.Name = "t2"
+				}
+				sameCount := r.bool() // as many fields as before, under other names
+				ne := map[string]string{}
+				for _, f := range fields {
+					keep := r.bool()
+					name := f
+					if !keep {
+						if !sameCount && r.bool() {
+							continue
+						}
+						name = f + "'"
+					}
+					if a, ok := cur.Attrs[f]; ok {
+						a.Name = name
+						nt.Attrs[name] = a
+					} else {
+						rel := cur.Rels[f]
+						rel.FromName = name
+						nt.Rels[name] = rel
+					}
+					if keep {
+						ne[name] = expect[f]
+					} else {
+						ne[name] = zero(nt, name)
+					}
+				}
+				cur, expect = nt, ne
+				t := nt.Copy()
+				op = lst("res", "soft", "settype", sxType(nt))
+				panicked, _ = guard(func() { soft.SetType(&t) })
+				if r.bool() {
+					// nothing reads the resource between this edit and the next one
+					o.emit(lst("res", "soft", "settype-unread", sxType(nt)), "-", "na")
+					o.stat("softedit.settype-unread")
+					continue
+				}
+				o.stat("softedit.settype")
+			}
+			if op == "" {
+				continue
+			}
+			pv := verdict()
+			if panicked {
+				pv = "FAIL:the call panicked"
+			}
+			o.emit(op, sxResView(soft), pv)
 		}
 	}
 	// equality helpers
